@@ -114,6 +114,29 @@ def gen(prop, tier, seed):
     return cases
 
 
+def judge_c06(case, log):
+    """Calls made on the child side of a fork-mode start must never signal or reap anything:
+    the handle there refers to no child (the interposer blocks and records kill/waitpid aimed at
+    anything that is not a live child of the library)."""
+    vs = []
+    obs = {"kill_records": 0, "waitpid_records": 0, "fork_child_calls": 0}
+    fin = log.fin
+    if log.crashed() or fin is None:
+        return vs, obs, False   # C14 reports crashes of these cases
+    obs["fork_child_calls"] = len(fin.get("inchild", []))
+    for op in log.ops:
+        for t in op.get("tr", []):
+            if t[0] in ("kill", "waitpid"):
+                obs["kill_records" if t[0] == "kill" else "waitpid_records"] += 1
+                if t[7] & 4:
+                    vs.append(Violation("C06", "C06/seq/badtarget:%s:%s:fork-child" % (t[0], "nonpositive" if t[3] <= 0 else "not-live-child"),
+                                        "%s(%d) issued for a handle on the child side of a fork (calls %s)" % (t[0], t[3], case.meta["forkchild"])))
+    if fin.get("badtarget") and not vs:
+        vs.append(Violation("C06", "C06/seq/badtarget:unattributed:fork-child",
+                            "a call on the child side of a fork (%s) aimed kill/waitpid at something that is not a live child of the library (%d)" % (case.meta["forkchild"], fin["badtarget"])))
+    return vs, obs, obs["fork_child_calls"] > 0
+
+
 def judge(prop, case, log):
     vs = []
     obs = {"ops_checked": 0, "state_op_pairs": set(), "einval_checks": 0, "epipe_checks": 0, "cached_status_checks": 0,
@@ -361,9 +384,15 @@ class SeqEngine:
     name = "seq"
 
     def cases(self, prop, tier, seed):
-        return gen(prop, tier, seed)
+        cs = gen(prop, tier, seed)
+        if prop == "C06":
+            # only the misuse on the child side of a fork: the handle there holds no pid at all
+            return [c for c in cs if c.meta.get("forkchild")]
+        return cs
 
     def judge(self, prop, case, log):
+        if prop == "C06":
+            return judge_c06(case, log)
         return judge(prop, case, log)
 
 
